@@ -441,4 +441,11 @@ def run_spec(world, spec, upto=None):
             out.append(world.build(st['prog'], st.get('versions'), st.get('crash')))
         elif st['op'] == 'clean':
             out.append(world.clean())
+        elif st['op'] == 'note' and 'bulk' in st:
+            N = st['bulk']
+            for j in range(N):
+                world.mutate(['w', 'f%05d' % j, 'A'])
+            prog = {'level': 0, 'root': [{'k': 'bf', 'p': 'f%05d' % j, 'mode': 'ok', 'catch': False, 'ch': []}
+                                         for j in range(N)] + ([{'k': 'raise'}] if st['tail'] == 'raise' else [])}
+            out.append(world.build(prog, check_ref=False))
     return out
